@@ -93,6 +93,10 @@ PROPS = {
             {"pkg": "lm", "world": "lm",
              "quick": {"runs": 6000, "max_wall_s": 150, "minimise_s": 20},
              "thorough": {"runs": 600000, "max_wall_s": 1500, "minimise_s": 60}},
+            # the real remote target with 'destination concurrency N': message histories ending at every stage
+            {"pkg": "rm", "world": "rm", "seed_salt": 0x11,
+             "quick": {"runs": 2500, "max_wall_s": 120, "minimise_s": 20},
+             "thorough": {"runs": 200000, "max_wall_s": 1500, "minimise_s": 60}},
         ],
     },
     "C03": {
@@ -132,6 +136,10 @@ PROPS = {
             {"pkg": "qa", "world": "qa", "seed_salt": 0x16,
              "quick": {"runs": 4000, "max_wall_s": 120, "minimise_s": 20},
              "thorough": {"runs": 300000, "max_wall_s": 1500, "minimise_s": 60}},
+            # helper-computed codes at their real call sites: errors the remote target produces from network/DNS faults
+            {"pkg": "rm", "world": "rm", "seed_salt": 0x161,
+             "quick": {"runs": 2000, "max_wall_s": 120, "minimise_s": 20},
+             "thorough": {"runs": 200000, "max_wall_s": 1500, "minimise_s": 60}},
         ],
     },
     "C14": {
@@ -156,6 +164,22 @@ PROPS = {
             {"pkg": "qa", "world": "qb", "seed_salt": 0x9,
              "quick": {"runs": 4000, "max_wall_s": 120, "minimise_s": 20},
              "thorough": {"runs": 300000, "max_wall_s": 1500, "minimise_s": 60}},
+            # the real remote target: histories of 1-3 transactions sharing the connection cache
+            {"pkg": "rm", "world": "rm", "seed_salt": 0x99,
+             "quick": {"runs": 2500, "max_wall_s": 120, "minimise_s": 20},
+             "thorough": {"runs": 200000, "max_wall_s": 1500, "minimise_s": 60}},
+        ],
+    },
+    "C05": {
+        "level": "exploration",
+        "rule": "one run = a target.remote instance configured through its own Init (mx_auth with mtasts and/or local_policy{min_tls_level, min_mx_level}, requiretls_override, relaxed_requiretls, optional destination limit), 1-2 scripted MX servers (STARTTLS offered / stripped / handshake failing, certificate valid / self-signed / wrong name / expired, REQUIRETLS offered or not, per-stage reply faults), MTA-STS policy none / testing / enforce / fetch error with MX patterns matching one, all or no candidate, optional temporary MX lookup failure, and a history of 1-3 messages (REQUIRETLS, TLS-Required: No, quarantined) with idle gaps below and above the connection-cache lifetime; every message a server received content for is judged from the server's side against the requirements in force for that message; non-trivial = a fault fired, or the history has more than one message, or a cached connection carried a second transaction",
+        "real": ["internal/target/remote (Target.Init, PolicyGroup.Init, mtasts and local_policy, connect/attemptMX/connectionForDomain)", "internal/smtpconn + go-smtp client", "internal/smtpconn/pool", "internal/limits", "crypto/tls with generated ed25519 certificates", "testing/synctest fake clock (pool lifetimes, command time-outs)"],
+        "stub": ["MX servers (ScriptedMX)", "resolver (mockdns zone; the DNSSEC-aware resolver is switched off)", "MTA-STS policy fetch (scripted, replaces the HTTPS fetch and cache)", "network (simnet)"],
+        "assumptions": COMMON_ASSUME + ["DANE and DNSSEC policies are not exercised: the DNSSEC-aware resolver has no seam in this build, so the dane/dnssec dimensions of the quantifier are not covered"],
+        "parts": [
+            {"pkg": "rm", "world": "rm",
+             "quick": {"runs": 2500, "max_wall_s": 150, "minimise_s": 20},
+             "thorough": {"runs": 200000, "max_wall_s": 1500, "minimise_s": 60}},
         ],
     },
 }
@@ -211,6 +235,10 @@ META = {
             "design_ref": "DESIGN.md section 6 (C09)",
             "level_text": "Seeded exploration of recipient spellings x server capabilities x per-stage failures; the monitor checks the per-recipient result contract on every call.",
             "level_note": "Next hop is scripted; see the evidence for which target kinds a run covered."},
+    "C05": {"technique": "deterministic simulation: message histories through the real remote target against scripted MX servers with real TLS over a simulated network; server-side requirement evaluator as oracle",
+            "design_ref": "DESIGN.md section 6 (C05)",
+            "level_text": "Seeded exploration of policy configurations x per-MX facts x message flags x histories sharing the connection cache; the oracle is an independent evaluator of the documented requirements applied to what the server actually received and over which TLS state.",
+            "level_note": "MTA-STS, local_policy, REQUIRETLS, TLS-Required override, quarantine and connection reuse are covered; DANE/DNSSEC are not (no resolver seam built)."},
 }
 
 NOT_APPLICABLE = [
